@@ -1,8 +1,8 @@
 #!/bin/sh
 # seedcheck.sh <patch.diff> <name> <prop> [prop...]: apply a seeded change to a scratch worktree of /repo,
-# run the repository's tests there, then run the named checks against it (VERIF_REPO), then remove the worktree.
-# Extra: DEMO=<file> DEMODIR=<pkg dir relative to repo> DEMOCMD="go test -run X ./pkg" runs the demonstration
-# with and without the change.
+# run the repository's tests there, run the demonstration with and without the change, then run the named
+# checks against it (VERIF_REPO), then remove the worktree.
+#   DEMO=<demo file> DEMODIR=<package dir relative to the repo root> DEMOCMD="go test ./pkg -run X -count=1"
 set -u
 PATCH=$1; NAME=$2; shift 2
 export GOFLAGS=-mod=mod GOPROXY=off GOSUMDB=off GOTOOLCHAIN=local
@@ -10,18 +10,22 @@ W=/tmp/sc_$NAME
 git -C /repo worktree prune
 rm -rf "$W"; git -C /repo worktree add -q --detach "$W" || exit 2
 cd "$W"
-if [ -n "${DEMO:-}" ]; then
-  cp "$DEMO" "$W/${DEMODIR:-.}/" && (sh -c "$DEMOCMD" >/tmp/sc_$NAME.demo0 2>&1; echo "demo without change: exit $?")
-fi
+rundemo() {
+  if [ -n "${DEMO:-}" ]; then
+    mkdir -p "$W/${DEMODIR:-.}"
+    case "$DEMO" in *_test.go) T="$W/${DEMODIR:-.}/zz_seed_demo_test.go";; *) T="$W/${DEMODIR:-.}/$(basename "$DEMO")";; esac
+    cp "$DEMO" "$T"
+    sh -c "$DEMOCMD" >/tmp/sc_$NAME.demo.$1 2>&1; echo "demo $1 change: exit $?"
+    rm -f "$T"
+  fi
+}
+rundemo without
 git apply "$PATCH" || { echo "patch does not apply"; cd /; git -C /repo worktree remove --force "$W"; exit 2; }
-go build ./... || { echo "does not build"; }
-echo "repo tests with change:"; go test -count=1 $(go list ./... | grep -v sgip/sgip12) 2>&1 | grep -v "^ok\|no test files" | head -10; echo "(end of failures)"
-if [ -n "${DEMO:-}" ]; then
-  (sh -c "$DEMOCMD" >/tmp/sc_$NAME.demo1 2>&1; echo "demo with change: exit $?")
-  rm -f "$W/${DEMODIR:-.}/$(basename "$DEMO")"
-fi
+go build ./... || echo "DOES NOT BUILD"
+echo "repo tests with change (failures listed):"; go test -count=1 $(go list ./... | grep -v sgip/sgip12) 2>&1 | grep -v "^ok\|no test files" | head -10
+rundemo with
 cd /verif
 for p in "$@"; do
-  VERIF_REPO=$W bin/check $p --tier ${TIER:-quick} 2>&1 | egrep "^OK|^VIOLATION|^KNOWN|INFRA|tag=" | cut -c1-260
+  VERIF_REPO=$W bin/check $p --tier ${TIER:-quick} 2>&1 | egrep "^OK|^VIOLATION|INFRA|tag=" | cut -c1-200
 done
 git -C /repo worktree remove --force "$W"
